@@ -283,9 +283,21 @@ def rule_g(repo, chk):
     il = repo.find(REF, 'inline')
     # the text written for a reference is <prefix of the replaced token> + <replacement>; the prefix is read from the token itself (`n`,
     # which starts as tree_name) or, for `a.x`, from the first leaf of the attribute chain
-    ok = any(norm(s_.value) == 'prefix + s' for s_ in stmts_in(il, ast.Assign)) and \
-        any(norm(s_.value) in ('n.prefix', 'tree_name.prefix') for s_ in stmts_in(il, ast.Assign) if norm(s_.targets[0]) == 'prefix')
-    chk.ob('C07.g', ok, il, 'inline keeps the prefix of every replaced reference')
+    # every text stored for a node of a reference is '' (a node of the attribute chain that disappears) or <a prefix> + <replacement>, where the
+    # prefix is that of the token itself or of the first leaf of its attribute chain - read directly or through the local `prefix`
+    from ..lib import xnorm
+    PFX = {'n.prefix', 'tree_name.prefix', 'tree_name.parent.parent.children[0].prefix', 'n.parent.parent.children[0].prefix', 'par.parent.children[0].prefix'}
+    pfx_binds = [xnorm(s_.value, il) for s_ in stmts_in(il, ast.Assign) if norm(s_.targets[0]) == 'prefix']
+    stores = [s_ for s_ in stmts_in(il, ast.Assign) if isinstance(s_.targets[0], ast.Subscript) and norm(s_.targets[0].value) == 'of_path']
+    def keeps(v):
+        if isinstance(v, ast.Constant) and v.value == '':
+            return True
+        if not (isinstance(v, ast.BinOp) and isinstance(v.op, ast.Add) and norm(v.right) == 's'):
+            return False
+        l = xnorm(v.left, il)
+        return l in PFX or (l == 'prefix' and bool(pfx_binds) and all(b in PFX for b in pfx_binds))
+    ok = len(stores) >= 2 and all(keeps(s_.value) for s_ in stores) and any(not isinstance(s_.value, ast.Constant) for s_ in stores)
+    chk.ob('C07.g', ok, il, 'inline keeps the prefix of every replaced reference', str([short(s_) for s_ in stores if not keeps(s_.value)]))
 
 
 def rule_h(repo, chk):
